@@ -46,27 +46,6 @@ HOLDER_ITER = {
 }
 
 
-def follows_unconditionally(mod, stmt, pred, stop):
-    """True if, after `stmt`, a statement satisfying pred is executed on every path that continues
-    normally: it is a later sibling of stmt or of one of its ancestors (up to `stop`)."""
-    child = stmt
-    n = mod.parent.get(stmt)
-    while n is not None:
-        for field in ("body", "orelse", "finalbody"):
-            lst = getattr(n, field, None)
-            if isinstance(lst, list) and child in lst:
-                for later in lst[lst.index(child) + 1:]:
-                    if pred(later):
-                        return True
-                    if isinstance(later, (ast.Return, ast.Raise)):
-                        return False
-        if n is stop:
-            return False
-        if isinstance(n, (ast.For, ast.While)):
-            pass
-        child = n
-        n = mod.parent.get(n)
-    return False
 
 
 def enclosing_ifs(mod, node, stop):
@@ -80,11 +59,6 @@ def enclosing_ifs(mod, node, stop):
     return out
 
 
-def is_call_stmt(name):
-    def pred(s):
-        return isinstance(s, ast.Expr) and isinstance(s.value, ast.Call) and norm(s.value.func) == name
-
-    return pred
 
 
 def run(repo, res, tier):
